@@ -13,8 +13,10 @@ keep the Coq literals small:
               5 KeyError | 6 ConnectionCopyError | 7 ValueCopyError | 8 CircularDataFlowError |
               9 AmbiguousOutputError | "<class name>" for anything else
     labels  : [] if no node label changed, else the rank (a=0, b=1...) of every node's label
-    delta   : [[cid, p1, p2, ...]] for every channel whose list changed; a partner p is
-              32 * rank(owner label) + index(channel label)  (i.e. (owner label, channel label))
+    delta   : [[cid, p1, p2, ...]] for every channel whose list changed (cid = position of the channel
+              in the universe: nodes in order, each inputs, outputs, run, accumulate_and_run, ran, failed);
+              a partner p is 32 * rank(owner label) + index(channel label in LABELS), i.e. the pair
+              (owner label, channel label)
     flag    : partners that are no channel of the universe + strict typed data connections the
               real type_hint_is_as_or_more_specific_than rejects (counted on the real objects)
 
@@ -335,7 +337,13 @@ def _case_key(case):
     return json.dumps([case["nodes"], case["nwf"], case["ops"]], sort_keys=True)
 
 
+HTAGS = [("HInt", int), ("HStr", str), ("HBool", bool), ("HIntStr", int | str)]
+
+
 def run_impl(case):
+    if case.get("compat"):       # the model's hint table against the real comparison
+        from pyiron_workflow.type_hinting import type_hint_is_as_or_more_specific_than as more_specific
+        return [int(bool(more_specific(ho, hi))) for _o, ho in HTAGS for _i, hi in HTAGS]
     u = Universe(case)
     prev, _ = u.snapshot()
     prev_labels = u.labels()
@@ -437,6 +445,8 @@ def world_coq(case):
 
 
 def model_term(case):
+    if case.get("compat"):
+        return "OL " + cl(f"ob (compat {o} {i})" for o, _ho in HTAGS for i, _hi in HTAGS)
     rbs = readbacks(case)
     nn = len(case["nodes"])
     par = cl("None" if (w is None or w < 0) else f"(Some {cn(w)})" for (_k, _l, w) in case["nodes"])
@@ -456,6 +466,8 @@ def _is_single_connect(op):
 
 
 def oracle(case, obs):
+    if case.get("compat"):
+        return None
     st = statics(case)
     nn = len(case["nodes"])
     chans_of = {i: [c for c, s in enumerate(st) if s[0] == i] for i in range(nn)}
@@ -505,7 +517,10 @@ def oracle(case, obs):
         changed = cur != prev or labels != prev_labels
         if code != 0 and _is_single_connect(op) and changed:
             return f"refused-changed: {where}: the refused connection ({EXC_INV.get(code, code)}) changed the store"
-        if code != 0 and k in ("connect", "lshift", "set_inputs") and len(op[2]) > 1:
+        if k == "call" and len(op[2]) == 1 and code in (1, 2, 4, 9) and changed:   # C12_refused_call_noop
+            return f"refused-changed: {where}: the refused call keyword ({EXC_INV.get(code, code)}) changed the store"
+        if (code != 0 and k in ("connect", "lshift", "set_inputs") and len(op[2]) > 1) or \
+                (k == "call" and len(op[2]) > 1 and code in (1, 2, 4, 9)):
             # a refused connection changes nothing: only connections accepted before it may be new
             for a in range(len(cur)):
                 extra = len(cur[a]) - len(prev[a])
@@ -560,6 +575,8 @@ def known(case, obs, verdict):
 
 
 def nontrivial(case, obs):
+    if case.get("compat"):
+        return False
     alive, peak, refused, removed = 0, 0, 0, 0
     sizes = {}
     for op, ob in zip(case["ops"], obs):
@@ -575,10 +592,12 @@ def nontrivial(case, obs):
 
 
 def key(case):
-    return [case["nodes"], case["nwf"], case["ops"]]
+    return [case["nodes"], case["nwf"], case["ops"], bool(case.get("compat"))]
 
 
 def shrink_candidates(case):
+    if case.get("compat"):
+        return
     ops = case["ops"]
     for i in reversed(range(len(ops))):
         yield {"nodes": case["nodes"], "nwf": case["nwf"], "ops": ops[:i] + ops[i + 1:]}
@@ -593,6 +612,8 @@ def shrink_candidates(case):
 def distribution(results):
     kinds, outcomes, nodes, lens = {}, {}, {}, {}
     for c, enc, v, o in results:
+        if c.get("compat"):
+            continue
         nodes[len(c["nodes"])] = nodes.get(len(c["nodes"]), 0) + 1
         b = min(len(c["ops"]) // 10 * 10, 60)
         lens[b] = lens.get(b, 0) + 1
@@ -812,7 +833,7 @@ def gen_case(rng, nmin, nmax, lmin, lmax):
 
 def generate(ctx):
     rng = ctx.rng
-    out, seen = [], set()
+    out, seen = [{"compat": True, "nodes": [], "nwf": 0, "ops": []}], set()
     n = ctx.n(600, 4000)
     hangs = 0
     while len(out) < n and hangs < 3:      # a library that hangs is reported from the first few such cases
@@ -846,16 +867,3 @@ def corpus(ctx):
     for p in sorted((lib.VERIF / "corpus" / PROP).glob("*.json")):
         out.extend(json.loads(p.read_text()))
     return out
-
-
-def prepare(ctx):
-    """the model's table [Chan.compat] against the real comparison, and the channel layout"""
-    from pyiron_workflow.type_hinting import type_hint_is_as_or_more_specific_than as more_specific
-    tags = {"HInt": int, "HStr": str, "HBool": bool, "HIntStr": int | str}
-    table = {("HInt", "HInt"), ("HStr", "HStr"), ("HBool", "HBool"), ("HIntStr", "HIntStr"), ("HBool", "HInt"),
-             ("HInt", "HIntStr"), ("HStr", "HIntStr"), ("HBool", "HIntStr")}
-    for o, ho in tags.items():
-        for i, hi in tags.items():
-            if bool(more_specific(ho, hi)) != ((o, i) in table):
-                return False, f"Chan.compat disagrees with type_hint_is_as_or_more_specific_than on ({o}, {i})"
-    return True, ""
